@@ -58,12 +58,12 @@ MIX = {
 # design-model configurations per property: (cfg, "all" = print every behaviour | int = -simulate num, view-cfg for the
 # exhaustive invariant-only run in the thorough tier or None)
 DESIGN = {
-    "C02": [("retry.cfg", "all"), ("reports.cfg", "all")],
+    "C02": [("retry.cfg", "all"), ("reports.cfg", "all"), ("ping_cup.cfg", 400), ("ping_cup_inv.cfg", "inv")],
     "C03": [("retry.cfg", "all"), ("reports.cfg", "all")],
     "C04": [("flow.cfg", "all"), ("retry_nocup.cfg", "all"), ("sched.cfg", 150), ("history.cfg", 150)],
     "C05": [("flow.cfg", "all"), ("sched.cfg", 250)],
     "C06": [("retry.cfg", "all"), ("retry_nocup.cfg", "all")],
-    "C07": [("retry.cfg", "all"), ("reports.cfg", "all"), ("sched.cfg", 150), ("history.cfg", 200)],
+    "C07": [("retry.cfg", "all"), ("reports.cfg", "all"), ("sched.cfg", 150), ("history.cfg", 200), ("ping_cup_inv.cfg", "inv")],
     "C08": [("retry_nocup.cfg", "all"), ("sched.cfg", 250), ("history.cfg", 400), ("clock.cfg", 200)],
     "C09": [("flow.cfg", "all"), ("sched.cfg", 250), ("history.cfg", 400)],
     "C10": [("flow.cfg", "all"), ("reports.cfg", "all")],
